@@ -20,11 +20,30 @@ IDS = {
     ("panic", "arrow-ipc/src/reader.rs", "assertion failed"): "C08-ipc-variadic-counts-assert",
     ("panic", "arrow-ipc/src/reader.rs", "called `Option"): "C08-ipc-reader-unwrap-none",
     ("panic", "arrow-ipc/src/reader.rs", "index out of bounds"): "C08-ipc-reader-index",
-    ("alloc", "", "alloc"): None,          # by module, below
+    ("panic", "arrow-buffer/src/util/bit_chunk_iterator.rs", "offset + len out of bounds"): "C08-pq-def-levels-out-of-bounds",
+    ("panic", "arrow-buffer/src/util/bit_util.rs", "assertion `left != right` failed"): "C08-pq-def-levels-bit-util-assert",
+    ("panic", "bytes-1.12.1/src/bytes.rs", "range end out of bounds"): "C08-pq-bytes-slice-out-of-bounds",
+    ("panic", "bytes-1.12.1/src/bytes.rs", "range start must not be greater than end"): "C08-pq-bytes-slice-start-after-end",
+    ("panic", "parquet/src/arrow/array_reader/byte_array.rs", "attempt to divide by zero"): "C08-pq-byte-array-divide-by-zero",
+    ("panic", "parquet/src/arrow/array_reader/fixed_len_byte_array.rs", "attempt to divide by zero"): "C08-pq-flba-divide-by-zero",
+    ("panic", "parquet/src/arrow/array_reader/fixed_len_byte_array.rs", "called `Option"): "C08-pq-flba-unwrap-none",
+    ("panic", "parquet/src/arrow/array_reader/fixed_len_byte_array.rs", "range end index"): "C08-pq-flba-range-end",
+    ("panic", "parquet/src/arrow/array_reader/fixed_len_byte_array.rs", "range start index"): "C08-pq-flba-range-start",
+    ("panic", "parquet/src/arrow/decoder/delta_byte_array.rs", "slice index starts at"): "C08-pq-delta-byte-array-slice",
+    ("panic", "parquet/src/column/page.rs", "called `Option"): "C08-pq-page-header-unwrap-none",
+    ("panic", "parquet/src/column/reader/decoder.rs", "Decoder for dict should have been set"): "C08-pq-dict-decoder-missing",
+    ("panic", "parquet/src/data_type.rs", "assertion failed"): "C08-pq-plain-decoder-assert",
+    ("panic", "parquet/src/data_type.rs", "set_data should have been called"): "C08-pq-plain-decoder-no-data",
+    ("panic", "parquet/src/encodings/decoding.rs", "range end index"): "C08-pq-decoding-range-end",
+    ("panic", "parquet/src/encodings/decoding/byte_stream_split_decoder.rs", "index out of bounds"): "C08-pq-byte-stream-split-index",
     ("panic", "parquet/src/file/metadata/mod.rs", "column start and length should not be negative"): "C08-pq-negative-column-range",
+    ("panic", "parquet/src/record/reader.rs", "assertion `left == right` failed"): "C08-pq-record-reader-assert",
+    ("panic", "parquet/src/record/triplet.rs", "Cannot extract value, max definition level"): "C08-pq-record-triplet-panic",
+    ("panic", "parquet/src/util/bit_util.rs", "range end index"): "C08-pq-bit-reader-range-end",
 }
-ALLOC_IDS = {"arrow_ipc::compression": "C08-ipc-decompress-alloc", "arrow_ipc::reader": "C08-ipc-block-length-alloc",
-             "parquet::parquet_thrift": "C08-pq-thrift-list-alloc", "parquet::file": "C08-pq-metadata-alloc"}
+ALLOC_IDS = {"arrow_ipc::compression": "C08-ipc-decompress-alloc", "arrow_ipc::reader": "C08-ipc-length-field-alloc",
+             "parquet::schema": "C08-pq-thrift-schema-alloc"}
+HANG_IDS = {"avro_ocf": "C08-avro-ocf-no-progress-loop"}
 
 
 def slug(outcome, wfile, msg, fmod):
@@ -83,7 +102,7 @@ def main():
         if outcome == "alloc":
             fid = ALLOC_IDS.get(gk[3]) or slug(outcome, "alloc", msg, gk[3])
         elif outcome == "hang":
-            fid = "C08-" + "-".join(sorted(g["fmts"])).replace("_", "-") + "-hang"
+            fid = HANG_IDS.get("-".join(sorted(g["fmts"]))) or "C08-" + "-".join(sorted(g["fmts"])).replace("_", "-") + "-hang"
         else:
             fid = IDS.get((outcome, wfile, msg)) or slug(outcome, wfile, msg, sorted(g["fmods"])[0])
         out.append((fid, gk, g))
